@@ -106,6 +106,7 @@ class Check:
         self.models_used = set()
         self.fns_executed = set()
         self.paths = 0
+        self.dup_paths = 0
         self.queries = 0
         self.solver_s = 0.0
         self.replayed = 0
@@ -188,6 +189,7 @@ class Check:
             self.models_used |= ex.models_used
             self.fns_executed |= ex.fns_executed
             self.paths += ex.stats['paths']
+            self.dup_paths += ex.stats.get('dup_paths', 0)
             self.queries += ex.solver.queries
             self.solver_s += ex.solver.time
             if ex.solver.unknown:
@@ -255,7 +257,7 @@ class Check:
                 'functions_encoded': sorted(set(self.functions) | self.fns_executed),
                 'bounds': self.bounds,
                 'per_obligation': self.obl,
-                'paths': self.paths, 'queries': self.queries, 'solver_s': round(self.solver_s, 2),
+                'paths': self.paths, 'duplicate_paths': self.dup_paths, 'queries': self.queries, 'solver_s': round(self.solver_s, 2),
                 'mir_dump_s': round(self.dump_s, 1),
                 'replayed_paths': self.replayed,
                 'replay_mismatches': self.replay_mismatch[:10],
@@ -271,7 +273,7 @@ class Check:
         with open(os.path.join(VERIF, 'evidence', f'{self.pid}.json'), 'w') as f:
             json.dump(ev, f, indent=1, default=str)
         print(f'[{self.pid}] tier={self.tier} obligations={n_obl} discharged={n_dis} known={len(self.known_hits)} '
-              f'violations={len(confirmed)} inconclusive={len(self.inconclusive)} paths={self.paths} queries={self.queries} '
+              f'violations={len(confirmed)} inconclusive={len(self.inconclusive)} paths={self.paths} dup={self.dup_paths} queries={self.queries} '
               f'solver={self.solver_s:.1f}s wall={time.time() - self.t0:.1f}s')
         for s in self.inconclusive[:15]:
             print('  INCONCLUSIVE:', s)
